@@ -54,6 +54,16 @@ class AdmInterp(OrderInterp):
                 return base.fields["atom"]
         return super().get_attr(base, attr, node)
 
+    def compare_values(self, op: ast.cmpop, a: Any, b: Any, node: ast.AST) -> Any:
+        # a literal zero is the ZERO of the order facts (`power < 0`); other literals are not order-only
+        def lift(v: Any) -> Any:
+            if isinstance(v, (int, float)) and not isinstance(v, bool) and v == 0:
+                return self.globals.setdefault("__ZERO__", Atom("ZERO"))
+            return v
+        if isinstance(a, Atom) or isinstance(b, Atom):
+            a, b = lift(a), lift(b)
+        return super().compare_values(op, a, b, node)
+
     def obj_method(self, base: Obj, attr: str, node: ast.AST) -> Any:
         if base.cls == MANAGER:
             if attr == GET_BOUNDS:
